@@ -67,6 +67,51 @@ pub fn z<T: Into<i128>>(v: T) -> String {
 pub fn zu(v: u128) -> String {
     format!("{}", v)
 }
+/// Literals for cases files that open `uint63_scope` (coq/Base/Lit.v):
+/// small numbers are primitive-integer literals (coerced to Z), negative
+/// numbers `(zn k)`, numbers >= 2^63 `(zb [limbs base 2^62, little endian])`.
+pub fn nu(v: u128) -> String {
+    if v < (1u128 << 63) {
+        format!("{}", v)
+    } else {
+        let mut limbs = Vec::new();
+        let mut x = v;
+        while x > 0 {
+            limbs.push(format!("{}", x & ((1u128 << 62) - 1)));
+            x >>= 62;
+        }
+        format!("(zb [{}])", limbs.join("; "))
+    }
+}
+pub fn n<T: Into<i128>>(v: T) -> String {
+    let v: i128 = v.into();
+    if v < 0 {
+        format!("(zn {})", nu(v.unsigned_abs()))
+    } else {
+        nu(v as u128)
+    }
+}
+/// list of unsigned numbers as `list Z`
+pub fn nlist(xs: &[u128]) -> String {
+    if xs.iter().all(|x| *x < (1u128 << 63)) {
+        format!("(zl [{}])", xs.iter().map(|x| x.to_string()).collect::<Vec<_>>().join("; "))
+    } else {
+        format!("[{}]", xs.iter().map(|x| format!("(zi {})", nu(*x))).collect::<Vec<_>>().join("; "))
+    }
+}
+/// byte string: `(bs len [7 bytes per literal])`
+pub fn nbytes(b: &[u8]) -> String {
+    let mut lits = Vec::with_capacity(b.len() / 7 + 1);
+    for ch in b.chunks(7) {
+        let mut v: u64 = 0;
+        for i in 0..7 {
+            v = (v << 8) | (*ch.get(i).unwrap_or(&0) as u64);
+        }
+        lits.push(v.to_string());
+    }
+    format!("(bs {} [{}])", b.len(), lits.join("; "))
+}
+
 pub fn zlist<I: IntoIterator<Item = String>>(xs: I) -> String {
     let v: Vec<String> = xs.into_iter().collect();
     format!("[{}]", v.join("; "))
